@@ -648,6 +648,7 @@ type blockOpts struct {
 	setArm  bool
 	nTables int
 	simple  bool   // items take part in hash comparisons: scale-2 decimals only
+	dup     bool   // one or two plain low-cardinality columns, no grouping (duplicate rows for set operations)
 	mirror  *Query // INTERSECT right arm: same first table and column items as this block, so rows can coincide
 }
 
@@ -806,7 +807,7 @@ func (g *Gen) selectBlock(c *gctx, o blockOpts) *Query {
 		}
 		return q
 	}
-	grouped := !o.plain && o.mirror == nil && g.pct(30)
+	grouped := !o.plain && o.mirror == nil && !o.dup && g.pct(30)
 	oldSimple := g.simple
 	defer func() { g.simple = oldSimple }()
 	if grouped {
@@ -919,6 +920,18 @@ func (g *Gen) plainItems(c *gctx, q *Query, o blockOpts) {
 				q.Items = append(q.Items, &Item{E: &Expr{Op: "col", T: cd.T, Tab: r.alias, Col: cd.Name}, Alias: fmt.Sprintf("c%d", i)})
 				i++
 			}
+		}
+		return
+	}
+	if o.dup {
+		n := 1 + g.rnd.Intn(2)
+		for i := 0; i < n; i++ {
+			t := []Type{TInt, TInt, TStr}[g.rnd.Intn(3)]
+			col := "s"
+			if t == TInt {
+				col = []string{"a", "b"}[g.rnd.Intn(2)]
+			}
+			q.Items = append(q.Items, &Item{E: &Expr{Op: "col", T: t, Tab: c.local[0].alias, Col: col}, Alias: fmt.Sprintf("c%d", i)})
 		}
 		return
 	}
@@ -1200,7 +1213,10 @@ func (g *Gen) Query() *Query {
 		g.noSumInt, g.noNullLit = true, true
 		defer func() { g.noSumInt, g.noNullLit = false, false }()
 		lc := &gctx{depth: g.cfg.SubDepth}
-		l := g.selectBlock(lc, blockOpts{setArm: true, noAvg: true})
+		// a third of the set operations get arms with one or two low-cardinality plain columns, so that
+		// duplicate rows (the ALL / DISTINCT multiplicity rules) really occur
+		dup := g.pct(35)
+		l := g.selectBlock(lc, blockOpts{setArm: true, noAvg: true, dup: dup})
 		var want []Type
 		for _, it := range l.Items {
 			t := it.E.T
